@@ -32,7 +32,9 @@ def r1_lastkey(ck, F, R="C02-R1"):
     n = 0
     for path in (A("writer_insert"), A("writer_into_inner")):
         b = F.body(path)
-        for rec in classify_block_writes(ck, R, b):
+        b0 = b
+        for rec in classify_block_writes(ck, R, b0):
+            b = rec.get("body", b0)
             if rec["kind"] == "paired":
                 n += 1
                 key = rec["lastkey_call"]
